@@ -187,6 +187,9 @@ def plumbing(ctx):
             src = psanorm.value_source(gix, gdefs, v) if hasattr(psanorm, "value_source") else v
             leaves = []
             for cs_, lf in psanorm.result_table(gix, v):
+                l0 = peel(lf)
+                if (l0.get("k") == "def" and (l0.get("path") or "").endswith("Option::None")) or (l0.get("k") == "ctor" and callee(l0).endswith("Result::Err")):
+                    continue          # the failure exits of the chase leave through `?`: no value is stored on them
                 leaves.append((cs_, lf))
             ok_all = bool(leaves)
             for cs_, lf in leaves:
